@@ -499,12 +499,12 @@ class Parser:
     if k == 'op' and v in UNMODELLED_OPS: raise Unmodelled(f'operator {v} (line {ln})')
     if k == 'op' and v in UNOPS:
       s.next(); a = s.unary()
-      if v in '&|^' and s.peek()[0] == 'op' and any(s.peek()[1] == t for lvl in BINOPS for (t, c) in lvl):
+      if v in '&|^' and s.peek()[0] == 'op' and (s.peek()[1] == '?' or any(s.peek()[1] == t for lvl in BINOPS for (t, c) in lvl)):
         # `( ^ a ^ b )`: the reduction applies to `a` only.  (legitimate text always closes the parenthesis right after
         # the operand of a reduction: visit_Reduce emits `( op value )`)
         s.f.notes.append(f'line {ln}: reduction operator {v} binds to the first operand of an unparenthesised expression')
         if s.lenient:
-          s.f.repairs.append('reduce-of-binop')
+          s.f.repairs.append('reduce-of-ifexp' if s.peek()[1] == '?' else 'reduce-of-binop')
           rest = s.continue_binary(a)
           return ('un', UNOPS[v], rest)
       return ('un', UNOPS[v], a)
